@@ -215,9 +215,11 @@ def run(ctx, mode):
                 except (ValueError, IndexError, AssertionError):
                     key = None
             if solver == "maxmin" and v.endswith(" precision-model-agrees") and "over capacity []" in v and "values [" in v:
+                # (fixed defect: the model, which follows the fixed code, no longer reproduces it, so this key is not given any
+                # more; a negative rate is an unclassified violation)
                 # no capacity exceeded, a variable with a negative rate, reproduced by the model at the configured precision:
                 # double_equals(min_bound, bound*penalty) matched a variable without bound (bound_ = -1), value_ = -1
-                # (theorem maxmin_var_bounds_eps_counterexample)
+                # (regression theorem maxmin_var_bounds_eps_regression)
                 vals = v.split("values [")[1].split("]")[0].replace(",", " ").split()
                 if vals and any(x.startswith("-") for x in vals):
                     key = "maxmin-precision-bound-test-unbounded-variable"
